@@ -95,7 +95,7 @@ func TestC02(t *testing.T) {
 	rec := newRec(t, "C02")
 	co := gen.LoadCorpus()
 	corpusSet := map[uint64]bool{}
-	for _, objs := range [][]gen.Obj{co.Certs, co.CRLs, co.OCSPs} {
+	for _, objs := range [][]gen.Obj{co.Certs, co.CRLs, co.OCSPs, gen.ReasonCodeCRLs(), gen.LargeCRLs()} {
 		for _, o := range objs {
 			corpusSet[stats.Hash(o.DER)] = true
 		}
@@ -122,7 +122,7 @@ func TestC02(t *testing.T) {
 	}
 	// corpus itself
 	idx := 0
-	for _, objs := range [][]gen.Obj{co.Certs, co.CRLs, co.OCSPs} {
+	for _, objs := range [][]gen.Obj{co.Certs, co.CRLs, co.OCSPs, gen.ReasonCodeCRLs(), gen.LargeCRLs()} {
 		for _, o := range objs {
 			idx++
 			if !stats.Mine(idx) {
